@@ -328,9 +328,16 @@ static Verdict check_case(PropId prop, const GCase& c, Stats& st)
         }
         if (prop == C09 || prop == C10 || prop == C08)
         {
-            Obs o = R::observe(in, false, 1 + int(k % 2), int((k / 2) % 2));
+            Obs o = R::observe(in, false, 1 + int(k % 2), int((k / 2) % 3));
             st.sub_evaluations += st.counting ? 1 : 0;
-            if (o.threw) { auto d = fail_detail(k, in); d.set("exception", o.exc); return fail("parse threw", d); }
+            if (o.threw) { auto d = fail_detail(k, in); d.set("exception", o.exc); d.set("buffer", o.checked ? "checked user buffer" : "library buffer"); return fail(o.checked ? "parse moved a buffer iterator outside [begin, end] or threw" : "parse threw", d); }
+            if (prop == C09 && o.checked && !o.has && !e.rr.error_tokens.empty() && e.rr.error_token < int(e.L.toks.size()) && o.any_deref)
+            {
+                // "reported before any later input is examined": the offending single-character term needs at most one byte of look-ahead
+                size_t off = 0; { size_t seen = 0; for (size_t i = 0; i < in.text.size(); ++i) { unsigned char ch = (unsigned char)in.text[i]; if (ch >= 'a' && ch <= 'f') { if (int(seen) == e.rr.error_token) { off = i; break; } ++seen; } } }
+                if (o.max_deref > off + 1)
+                { auto d = fail_detail(k, in); d.set("offending_term_offset", (unsigned long long)off); d.set("highest_byte_examined", (unsigned long long)o.max_deref); return fail("input after the offending term was examined before the error was reported", d); }
+            }
             bool exp_ok = e.rr.accepted;
             if (o.has != exp_ok)
             {
